@@ -73,6 +73,37 @@ func (a *asm) place(id int) {
 	a.b = append(a.b, 0x5b)
 }
 
+// mark gives label id the current position without emitting a JUMPDEST (a jump to it is invalid
+// unless the next byte emitted happens to be one).
+func (a *asm) mark(id int) { a.labels[id] = len(a.b) }
+
+// pushDataLabel emits PUSHn data and gives label id the position of data[at]: a label INSIDE the
+// immediate operand of a PUSH (never a valid jump destination, whatever the byte is).
+func (a *asm) pushDataLabel(id int, data []byte, at int) {
+	if len(data) > 32 {
+		data = data[:32]
+	}
+	a.b = append(a.b, byte(0x60+len(data)-1))
+	a.labels[id] = len(a.b) + at
+	a.b = append(a.b, data...)
+	a.h++
+}
+
+// pushLabelHigh pushes 2^(8*(n+1)) + position of label id (n >= 2): a destination whose low bits
+// are a valid position but which lies far outside the code.
+func (a *asm) pushLabelHigh(id int, n int) {
+	a.b = append(a.b, byte(0x60+n+2-1), 1)
+	for j := 1; j < n; j++ {
+		a.b = append(a.b, 0)
+	}
+	a.b = append(a.b, 0, 0)
+	a.lfix = append(a.lfix, fixup{len(a.b) - 2, id})
+	a.h++
+}
+
+// raw appends bytes that the generator knows not to be executed (dead code / filler).
+func (a *asm) raw(b []byte) { a.b = append(a.b, b...) }
+
 func (a *asm) addData(d []byte) int {
 	a.datas = append(a.datas, d)
 	return len(a.datas) - 1
